@@ -129,6 +129,8 @@ pub enum Fills {
     HalvesSeparated,
     /// only purchases are recorded as two separated fills (sales stay one line)
     BuysSeparated,
+    /// capital returns and accumulations are recorded as two same-day lines of half the amount
+    EventsSplit,
 }
 
 #[derive(Debug, Clone, Copy)]
@@ -139,6 +141,8 @@ pub struct Render {
     pub lower: bool,
     /// add cash DIVIDEND lines for every security (must change only the dividend totals)
     pub dividends: bool,
+    /// render only this security's lines (C09 projection); None = all
+    pub only: Option<usize>,
 }
 
 pub fn gbp(x: Rat) -> CurrencyAmount {
@@ -170,7 +174,7 @@ fn cell_lines(sec: &str, date: NaiveDate, c: &Cell, r: &Render, out: &mut Vec<Tr
         };
         let fills = if r.fills == Fills::BuysSeparated { if is_buy { Fills::HalvesSeparated } else { Fills::One } } else { r.fills };
         match fills {
-            Fills::One | Fills::BuysSeparated => out.push(mk(q, p, f)),
+            Fills::One | Fills::BuysSeparated | Fills::EventsSplit => out.push(mk(q, p, f)),
             Fills::Halves | Fills::HalvesSeparated => {
                 let h = q.div(two);
                 // equal total consideration: h(p-d) + h(p+d) = q p ; d < p keeps prices positive
@@ -206,19 +210,24 @@ fn cell_lines(sec: &str, date: NaiveDate, c: &Cell, r: &Render, out: &mut Vec<Tr
         };
         out.push(Transaction { date, ticker: t.clone(), operation: op });
     }
-    if !c.cr().is_zero() {
-        out.push(Transaction {
-            date,
-            ticker: t.clone(),
-            operation: Operation::CapReturn { amount: Decimal::ONE, total_value: gbp(c.cr()), fees: gbp(c.crf()) },
-        });
+    let parts: Vec<(Rat, bool)> = if r.fills == Fills::EventsSplit { vec![(Rat::new(1, 2), true), (Rat::new(1, 2), false)] } else { vec![(Rat::ONE, true)] };
+    for (share, first) in &parts {
+        if !c.cr().is_zero() {
+            out.push(Transaction {
+                date,
+                ticker: t.clone(),
+                operation: Operation::CapReturn { amount: Decimal::ONE, total_value: gbp(c.cr().mul(*share)), fees: gbp(if *first { c.crf() } else { Rat::ZERO }) },
+            });
+        }
     }
-    if !c.ac().is_zero() {
-        out.push(Transaction {
-            date,
-            ticker: t.clone(),
-            operation: Operation::Accumulation { amount: Decimal::ONE, total_value: gbp(c.ac()), tax_paid: gbp(Rat::ZERO) },
-        });
+    for (share, _) in &parts {
+        if !c.ac().is_zero() {
+            out.push(Transaction {
+                date,
+                ticker: t.clone(),
+                operation: Operation::Accumulation { amount: Decimal::ONE, total_value: gbp(c.ac().mul(*share)), tax_paid: gbp(Rat::ZERO) },
+            });
+        }
     }
 }
 
@@ -234,6 +243,7 @@ pub fn render(rec: &Rec, r: &Render) -> Vec<Transaction> {
     for d in 1..=rec.n() {
         let date = date_of(rec, r.base, d);
         for (si, sec) in rec.secs.iter().enumerate() {
+            if r.only.map(|o| o != si).unwrap_or(false) { continue; }
             cell_lines(sec, date, &rec.ledger[si][d - 1], r, &mut out);
         }
     }
@@ -310,7 +320,7 @@ pub fn to_dsl(txs: &[Transaction]) -> String {
 /// Base dates at which every behaviour is instantiated: the 30/31-day edge lands on
 /// month ends, a leap day, the 5/6 April tax-year boundary and a calendar year end.
 pub fn base_dates() -> Vec<NaiveDate> {
-    [(2020, 1, 29), (2019, 1, 29), (2021, 3, 6), (2022, 12, 2), (2023, 3, 7), (2024, 1, 31)]
+    [(2020, 1, 29), (2020, 12, 2), (2019, 1, 29), (2021, 3, 6), (2022, 12, 2), (2023, 3, 7), (2024, 1, 31), (2024, 12, 8)]
         .iter()
         .filter_map(|(y, m, d)| NaiveDate::from_ymd_opt(*y, *m, *d))
         .collect()
